@@ -20,6 +20,7 @@ typedef struct c11_state {
 	int      timer_fired[4];
 	int      create_failed;
 	int      fibers_before;
+	int      dettached;       /* the attached thread called tp_thread_dettach() on itself */
 	int      att_destroy;     /* the thread that attached itself as worker 0 destroys the pool after it was released (the usual main() pattern) */
 	int      force_external;  /* the caller is known not to be a pool thread (any more), whatever the library's thread-local says */
 } c11_state;
@@ -59,6 +60,13 @@ static void c11_exec(const op_t *op, int opidx) {
 		if (C.att_destroy && C.attacher >= 0 && !C.force_external) return; /* left to the attached thread */
 		C.destroying = 1;
 		if (C.inflight) sim_block(pred_no_inflight, NULL, 0, "c11.destroy.wait_inflight");
+		if (C.dettached && C.attacher >= 0 && sim_self() != C.attacher && !sim_fiber_done(C.attacher)) {
+			/* tp_thread_dettach() marks worker 0 stopped at once, so the pool will not wait for it: the application has
+			 * to see its own thread come back from tp_thread_attach_first() before it destroys the pool (first version
+			 * of this op did not, and "found" the detaching thread still inside the freed pool) */
+			sim_probe("c11.destroy_waits_for_dettached_thread");
+			sim_join_fiber(C.attacher);
+		}
 		if (!pw->shutdown_called) sim_probe("c11.destroy_without_shutdown");
 		if (sim_pool_fibers_live() > 0) sim_probe("c11.destroy_with_live_threads");
 		sim_log("tp_destroy...");
@@ -127,6 +135,14 @@ static void c11_exec(const op_t *op, int opidx) {
 			rc = tpt_ev_add_args(pw->thr[t], TP_EV_TIMER, 0, TP_FF_T_MSEC, (uint64_t)item_get(it, "ms", 5), u);
 			(void)rc;
 		}
+	} else if (0 == strcmp(k, "dettach")) {
+		/* the thread that attached itself as worker 0 leaves the pool again, from one of its own callbacks */
+		if (is_pool && C.attacher >= 0 && cur == pw->thr[0] && sim_self() == C.attacher && !C.destroying) { /* not while another thread destroys the pool */
+			C.dettached = 1;
+			rc = tp_thread_dettach(cur);
+			sim_probe("c11.dettach_by_attached_thread");
+			if (0 != rc) sim_violation("lc-bad-errno", "tp_thread_dettach returned %d", rc);
+		}
 	} else if (0 == strcmp(k, "wait")) {
 		sim_sleep_ns((uint64_t)item_get(it, "ns", 1000), "actor.wait");
 	}
@@ -143,13 +159,21 @@ void world_bc_noise_cb(tpt_p tpt, void *udata) {
 
 static int pred_attached(void *arg) {
 	pool_w *pw = arg;
-	return tpt_is_running(pw->thr[0]) || sim_fiber_done(C.attacher);
+	return sim_fiber_done(C.attacher) || pw->destroyed || C.destroying || tpt_is_running(pw->thr[0]);
 }
 static void *attacher_main(void *arg) {
 	pool_w *pw = &W.pool[0];
 	(void)arg;
 	sim_set_op(-3);
 	C.attach_rc = tp_thread_attach_first(pw->tp);
+	if (0 != C.attach_rc) {
+		/* refused (the pool was shut down before the thread got in): this thread never was a worker; the pool is
+		 * destroyed by whoever owns the final destroy */
+		if (C.attach_rc != EBUSY && C.attach_rc != ESPIPE) sim_violation("lc-bad-errno", "tp_thread_attach_first returned %d", C.attach_rc);
+		C.att_destroy = 0;
+		pw->never_started[0] = 1;
+		sim_probe("c11.attach_refused");
+	}
 	sim_log("attach_first returned %d", C.attach_rc);
 	if (C.att_destroy && 0 == C.attach_rc && !sim_violated() && !pw->destroyed) {
 		/* back from the pool: this thread is an ordinary caller again and tears the pool down */
@@ -222,6 +246,8 @@ static void c11_gen(plan_t *p, rng_t *r, int tier) {
 	}
 	if (skip && rng_chance(r, 700)) { op = plan_add_op(p, "attach"); item_set(&op->it, "actor", 0); item_set(&p->cfg, "attdestroy", rng_chance(r, 500)); }
 	item_set(&p->cfg, "waitstart", rng_chance(r, 400));
+	if (rng_chance(r, 60)) item_set(&p->cfg, "hookshut", 1 + (long long)rng_below(r, (uint64_t)n + 1));
+	int first_traffic = p->nops;
 	{
 		int ntraffic = (int)rng_below(r, (tier == TIER_QUICK) ? 8 : 16);
 		int nshut = (int)rng_below(r, 4);            /* explicit shutdown calls (0 = destroy does it) */
@@ -285,6 +311,15 @@ static void c11_gen(plan_t *p, rng_t *r, int tier) {
 			}
 		}
 	}
+	if (item_has(&p->cfg, "attdestroy") && rng_chance(r, 350) && p->nops > first_traffic) {
+		/* the attached thread detaches itself at some point of the traffic */
+		int at = first_traffic + (int)rng_below(r, (uint64_t)(p->nops - first_traffic));
+		op_t tmp;
+		op = plan_add_op(p, "dettach");
+		item_set(&op->it, "actor", (long long)rng_below(r, (uint64_t)actors));
+		item_set(&op->it, "via", 0);
+		tmp = p->ops[at]; p->ops[at] = p->ops[p->nops - 1]; p->ops[p->nops - 1] = tmp;
+	}
 	/* the final destroy: by a random actor, after its other ops */
 	op = plan_add_op(p, "destroy");
 	item_set(&op->it, "actor", (long long)rng_below(r, (uint64_t)actors));
@@ -339,6 +374,7 @@ static void *c11_root(void *arg) {
 	/* bystander descriptors around the pool's: must survive everything */
 	if (0 == pipe2(C.bystander, O_NONBLOCK | O_CLOEXEC)) { sim_fd_note_harness(C.bystander[0]); sim_fd_note_harness(C.bystander[1]); }
 	C.fibers_before = sim_pool_fibers_created();
+	if (hooks && p->ops[create_op].nfaults == 0) { int hs = (int)item_get(&p->cfg, "hookshut", 0); W.hook_shutdown_idx1 = (hs > n + 1) ? n + 1 : hs; }
 again:
 	sim_set_op(tries == 0 ? create_op : -2);
 	{
@@ -393,7 +429,7 @@ again:
 	if (!pw->destroyed && C.att_destroy && C.attacher >= 0) {
 		/* release the attached thread (it destroys the pool itself) */
 		sim_set_op(-2);
-		if (!pw->shutdown_called) { C.inflight++; tp_shutdown(pw->tp); pw->shutdown_called = 1; C.inflight--; }
+		if (!pw->shutdown_called && !C.destroying) { C.inflight++; tp_shutdown(pw->tp); pw->shutdown_called = 1; C.inflight--; } /* (a detached thread may already be destroying the pool) */
 		sim_join_fiber(C.attacher);
 		if (sim_violated()) return NULL;
 	}
